@@ -363,6 +363,19 @@ def queries(kind, obj, ps, part, case):
                                            "specific-marking" if m is not None else "any-marking", "/object-markings-present" if objlvl and sels is not None else "")
                     part.violation("C07/is_marked-vs-get/%s/%s" % (fl, feat), "is_marked(M) disagrees with M in get_markings under the same options",
                                    dict(case, query=["is_marked", m, sels, fl]), want, bool(im))
+                # the marking named by a marking-definition OBJECT (and by a list holding one) instead of its id: same question, same answer
+                if m == RED:
+                    import stix2
+                    for form, mv in (("marking-object", stix2.TLP_RED), ("list-with-marking-object", [stix2.TLP_RED])) + ((("method", "$method"),) if hasattr(obj, "is_marked") else ()):
+                        part.transitions += 1
+                        try:
+                            im2 = obj.is_marked(stix2.TLP_RED, sels, inherited=inh, descendants=desc) if mv == "$method" else MK.is_marked(obj, mv, sels, inherited=inh, descendants=desc)
+                        except InvalidSelectorError:
+                            continue
+                        if bool(im2) != bool(im):
+                            part.violation("C07/is_marked-depends-on-marking-form/%s/%s" % (form, "obj-level" if sels is None else "gran"),
+                                           "is_marked answers differently when the marking is given as a marking-definition object instead of its id",
+                                           dict(case, query=["is_marked", form, sels, fl]), bool(im), bool(im2))
 
 
 def run_history(kind, history, part, tier, expand=True, final_queries=True, layout=None, start_pairs=None):
